@@ -139,7 +139,7 @@ func Run(r *ev.Run) {
 		"policy 'ciphertext': the delivered field must carry the stored bytes (raw or in bytea text encoding); how such a column is described is not judged, because a column cannot be described as the declared type and carry ciphertext at once",
 	}
 	rng := gen.New(r.Seed, "c19")
-	n := r.Pick(24, 700)
+	n := r.Pick(80, 900)
 	for s := 0; s < n; s++ {
 		session(r, gen.New(r.Seed, fmt.Sprintf("c19-%d-%d", s, rng.Int63())), s)
 	}
